@@ -108,7 +108,8 @@ func (c *containerImpl) Child(name string) Node {
 		idx := listPathRe.FindStringIndex(name)
 		index, _ := strconv.Atoi(name[idx[0]+1 : idx[1]-1])
 		name2 := name[0:idx[0]]
-		if n, ok := c.children[name2]; ok {
+		// name2 could still end with index (nested lists, e.g. a[0][1]), so resolve it the same way
+		if n := c.Child(name2); n != nil {
 			if l, ok := n.(List); ok {
 				if index > l.Size()-1 {
 					// index out of bounds
